@@ -7,6 +7,7 @@ import (
 	"reflect"
 	"sort"
 	"strings"
+	"time"
 
 	"github.com/inconshreveable/log15"
 
@@ -152,6 +153,59 @@ func (n *Node) Momentum() (dm *nom.DetailedMomentum, err error) {
 		return nil, err
 	}
 	dm, err = store.PrefetchMomentum(m)
+	if err == nil && n.OnMomentum != nil {
+		n.OnMomentum(dm)
+	}
+	return dm, err
+}
+
+// MomentumWithoutContractPhase produces the next momentum from the pool's content as pillar/worker_momentum.go does, signed by
+// the pillar elected for the next slot, WITHOUT the producer's contract phase (no auto-receives are generated before or after):
+// the sends it confirms stay unanswered in the contracts' inboxes until a later producer answers them.
+func (n *Node) MomentumWithoutContractPhase() (dm *nom.DetailedMomentum, err error) {
+	if p := safely(func() {
+		ch := n.Chain()
+		prev, e := ch.GetFrontierMomentumStore().GetFrontierMomentum()
+		if e != nil {
+			err = e
+			return
+		}
+		tsec := int64(prev.TimestampUnix) + 10
+		exp, e := n.Z.Consensus().GetMomentumProducer(time.Unix(tsec, 0))
+		if e != nil || exp == nil {
+			err = fmt.Errorf("no producer for the next slot: %v", e)
+			return
+		}
+		kp := keyOf(*exp)
+		if kp == nil {
+			err = fmt.Errorf("no key for the elected pillar")
+			return
+		}
+		ins := ch.AcquireInsert("zvh manual momentum")
+		defer ins.Unlock()
+		blocks := ch.GetNewMomentumContent()
+		m := &nom.Momentum{ChainIdentifier: ch.ChainIdentifier(), PreviousHash: prev.Hash, Height: prev.Height + 1,
+			TimestampUnix: uint64(tsec), Content: nom.NewMomentumContent(blocks), Version: 1}
+		m.EnsureCache()
+		tx, e := n.Sup.GenerateMomentum(&nom.DetailedMomentum{Momentum: m, AccountBlocks: blocks}, kp.Signer)
+		if e != nil {
+			err = e
+			return
+		}
+		if e := ch.AddMomentumTransaction(ins, tx); e != nil {
+			err = e
+			return
+		}
+		st := ch.GetFrontierMomentumStore()
+		fm, e := st.GetFrontierMomentum()
+		if e != nil {
+			err = e
+			return
+		}
+		dm, err = st.PrefetchMomentum(fm)
+	}); p != "" {
+		return nil, fmt.Errorf("panic: %s", p)
+	}
 	if err == nil && n.OnMomentum != nil {
 		n.OnMomentum(dm)
 	}
